@@ -4,99 +4,213 @@ from __future__ import annotations
 import ast
 
 from .. import astq, reference, smf, wire
+from ..absint import AbsRaise, AList, AObj, Opaque, SeqVar
+from ..fold import ClassRef
 from ..model import AnalysisError, FuncInfo, unparse
-from ..paths import enumerate_paths
+from ..wire import AFile, Field, StrSym, VLQ
 
 LEVEL = 'other'
 EXPLANATION = (
-    'Scoping is decided on the shape of the code.  (R17.1) every @contextmanager generator in the package that assigns a module '
-    'global before its yield is path-enumerated: on every path through the yield - normal completion and the exception path out '
-    'of the yield alike - the restoring assignment of the saved value is executed afterwards (i.e. it sits in a finally that '
-    'covers the yield).  (R17.2) single writer: the only stores to meta._charset anywhere in mido/ are inside meta_charset; '
-    'its initial value and the default of MidiFile(charset=) fold to latin1.  (R17.3) in MidiFile._load/_save every call that '
-    'can reach encode_string/decode_string through the call graph is lexically inside `with meta_charset(self.charset)`, and '
-    'nothing that can reach them is called from MidiFile outside such a block.  (R17.4) encode_string/decode_string read the '
-    'global at call time (a Name load in the body, not a default argument), encode with .encode(_charset)/.decode(_charset), '
-    'and all 8 text-carrying MetaSpec classes encode and decode through them (no literal codec).  That the bytes in the file '
-    'are the text encoded in the charset then follows from C07/C09 (payload = encode_string(text)).')
-TRUSTED = ['midolint path enumeration (try/finally, yield as a raise point) and call graph over resolved callees',
-           'contextlib.contextmanager semantics: an exception in the with body is raised at the yield']
+    'Scoping is decided by abstract interpretation with a faithful model of `with <@contextmanager generator>`: the generator body '
+    'runs up to its yield, the with-body runs AT the yield (so an exception of the body is raised there, inside whatever '
+    'try/finally the generator has), then the rest of the generator runs; assignments through a `global` declaration go to a '
+    'store that survives the call.  MidiFile._load and _save are interpreted with charset X on files that succeed and on files that '
+    'fail at every kind of point the property names (truncated header, truncated track, EOF inside an event, invalid data byte, '
+    'undecodable text, n-th message with a non-integer / negative time, unencodable text): (R17.1) after the call - returned or '
+    'raised - the process-wide charset is latin1 again; (R17.3) every encode_string/decode_string that happened during the call saw '
+    'charset X; and a text meta message encoded right after the call sees latin1.  (R17.2) the only functions that assign the global are '
+    'meta_charset and helpers reachable only from it; initial value and the MidiFile default fold to latin1.  (R17.4) '
+    'encode_string/decode_string, interpreted un-summarised, apply exactly .encode(<charset in force at call time>) / '
+    'bytearray(data).decode(<same>) with no error handler and nothing else (late binding is tested by changing the stored global '
+    'between two calls); decorators that could cache are rejected by the interpreter.  That the 8 text meta types go through the '
+    'helpers and that file bytes = encoded text is established by the abstract save/load of C07/C09 on symbolic text.')
+TRUSTED = ['midolint abstract interpreter (contextmanager model, global store)', 'contextlib.contextmanager semantics',
+           'C07/C09 for the wiring of text meta types to the helpers']
 ASSUMPTIONS = ['whether a given text is encodable in a given charset is codec behaviour, not decided',
                'threads: the charset is process-global by design; concurrent loads with different charsets are outside the property']
 
 META = wire.META_MOD
 MF = smf.MF
+KEY = (META, '_charset')
 
 
-def global_stores(fn: FuncInfo):
-    """names declared global and assigned in fn"""
-    gl = set()
-    for n in astq.walk_shallow(fn.node):
-        if isinstance(n, ast.Global):
-            gl.update(n.names)
-    out = []
-    for t, st in astq.stores_in(fn.node):
-        if isinstance(t, ast.Name) and t.id in gl:
-            out.append((t.id, st))
-    return out
+class CodecFail:
+    """A symbolic text / payload on which the codec raises."""
+    py_type = 'str'
+
+    def __init__(self, exc):
+        self.exc = exc
 
 
-def r17_1(ctx):
+def make_interp(ctx):
+    ai = smf.make_interp(ctx)
+    base_enc = ai.summaries['mido/midifiles/meta.py::encode_string']
+    base_dec = ai.summaries['mido/midifiles/meta.py::decode_string']
+
+    def enc(interp, args, kwargs, node):
+        r = base_enc(interp, args, kwargs, node)
+        if isinstance(args[0], CodecFail):
+            raise AbsRaise(args[0].exc, node)
+        return r
+
+    def dec(interp, args, kwargs, node):
+        r = base_dec(interp, args, kwargs, node)
+        v = args[0]
+        if isinstance(v, AList) and any(isinstance(x, SeqVar) and getattr(x, 'undecodable', False) for x in v.items):
+            raise AbsRaise('UnicodeDecodeError', node)
+        return r
+    ai.summaries['mido/midifiles/meta.py::encode_string'] = enc
+    ai.summaries['mido/midifiles/meta.py::decode_string'] = dec
+    return ai
+
+
+def _mf(ctx, ai, charset, tracks=None):
+    cls = ctx.p.cls(MF, 'MidiFile')
+    return ai.apply(ClassRef(cls), [], {'type': 1, 'charset': charset, 'tracks': tracks if tracks is not None else AList([], 'list')}, None)
+
+
+def _header(ntracks=1):
+    return [Field('4s', b'MThd'), Field('L', 6), Field('h', 1), Field('h', ntracks), Field('h', 480)]
+
+
+def load_streams():
+    """label -> (stream, expected outcome kind)"""
+    T = StrSym('T')
+    ok_body = [VLQ(0), 0xff, 0x03, VLQ(wire.size_of([T.bytes])), T.bytes, VLQ(5), 0x90, 60, 64, VLQ(0), 0xff, 0x2f, VLQ(0)]
+    bad = SeqVar('enc(bad)', 255)
+    bad.undecodable = True
+    bad_body = [VLQ(0), 0xff, 0x01, VLQ(wire.size_of([T.bytes])), T.bytes, VLQ(0), 0xff, 0x03, VLQ(wire.size_of([bad])), bad]
+
+    def trk(body, size=None):
+        # size=99 stands for "the chunk claims more bytes than the file holds": the claimed length is the bytes present plus
+        # a non-empty missing part, so the end-of-chunk test can never be met
+        claimed = wire.size_of(body) if size is None else wire.size_of(body + [SeqVar('missing', 255, minlen=1)])
+        return [Field('4s', b'MTrk'), Field('L', claimed)] + body
+    return {
+        'complete file': (_header() + trk(ok_body), 'return'),
+        'empty file': ([], 'raise'),
+        'truncated after the header': (_header(), 'raise'),
+        'truncated inside a text event': (_header() + trk(ok_body[:4], size=99), 'raise'),
+        'truncated inside a channel message': (_header() + trk(ok_body[:8], size=99), 'raise'),
+        'not a MIDI file': ([Field('4s', b'RIFF'), Field('L', 6)], 'raise'),
+        'invalid data byte': (_header() + trk([VLQ(0), 0xff, 0x03, VLQ(wire.size_of([T.bytes])), T.bytes, VLQ(0), 0x90, 200, 64]), 'raise'),
+        'undecodable text in the second meta message': (_header() + trk(bad_body), 'raise'),
+        'second track missing': (_header(2) + trk(ok_body), 'raise'),
+    }
+
+
+def save_tracks(ctx, ai):
+    def text(t, time=0):
+        return wire.make_meta(ai, ctx, 'track_name', {'name': t}, time)
+
+    def note(time):
+        return wire.make_message(ctx, 'note_on', {'channel': 0, 'note': 60, 'velocity': 64}, time)
+    return {
+        'complete file': (lambda: [text(StrSym('T')), note(5)], 'return'),
+        'non-integer time in the second message': (lambda: [text(StrSym('T')), note(1.5)], 'raise'),
+        'negative time in the third message': (lambda: [text(StrSym('T')), note(0), note(-1)], 'raise'),
+        'unencodable text in the second message': (lambda: [text(StrSym('T')), text(CodecFail('UnicodeEncodeError'), 3)], 'raise'),
+        'real-time message': (lambda: [text(StrSym('T')), wire.make_message(ctx, 'clock', {}, 0)], 'raise'),
+    }
+
+
+def r17_scoping(ctx):
+    ai = make_interp(ctx)
+    cls = ctx.p.cls(MF, 'MidiFile')
+    o, load = ctx.p.lookup_method(cls, '_load')
+    o, save = ctx.p.lookup_method(cls, '_save')
+    if load is None or save is None:
+        raise AnalysisError('MidiFile._load/_save not found')
+    ctx.fn(load)
+    ctx.fn(save)
+    mc = ctx.fn(ctx.p.func(META, 'meta_charset'))
+    initial = ctx.f.table(META, '_charset')
+    o, mbytes = ctx.p.lookup_method(ctx.p.cls(META, 'MetaMessage'), 'bytes')
     n = 0
-    for fn in ctx.p.all_functions():
-        if not astq.has_decorator(fn.node, 'contextmanager'):
-            continue
-        gs = global_stores(fn)
-        if not gs:
-            continue
-        ctx.fn(fn)
-        n += 1
-        paths = enumerate_paths(fn.node)
-        ctx.paths += len(paths)
-        w = ctx.where(fn)
-        for gname in sorted({g for g, _ in gs}):
-            # the saved value: a local assigned from the global before the first store
-            saved = None
-            for t, st in astq.stores_in(fn.node):
-                if isinstance(t, ast.Name) and isinstance(st, ast.Assign) and isinstance(st.value, ast.Name) and st.value.id == gname:
-                    saved = t.id
-                    break
-            ok = saved is not None
-            why = f'{fn.name} does not save the previous value of {gname}'
-            through_yield = 0
-            if ok:
-                for p in paths:
-                    idx = [i for i, e in enumerate(p.events) if e.kind in ('stmt', 'partial') and any(isinstance(x, ast.Yield) for x in ast.walk(e.node))]
-                    if not idx:
-                        continue
-                    through_yield += 1
-                    after = p.events[idx[-1] + 1:]
-                    restored = any(e.kind == 'stmt' and isinstance(e.node, ast.Assign) and any(isinstance(t, ast.Name) and t.id == gname for t in e.node.targets)
-                                   and isinstance(e.node.value, ast.Name) and e.node.value.id == saved for e in after)
-                    if not restored:
-                        ok = False
-                        kind = 'the body raises' if p.events[idx[-1]].kind == 'partial' else 'the body completes'
-                        why = (f'on the path where {kind}, {gname} is not restored to the saved value after the yield '
-                               f'(path ends with {p.status}): the temporary value stays in force for the rest of the process')
-                        break
-                if ok and through_yield < 2:
-                    ok = False
-                    why = (f'the yield is not inside a try/finally: when the with-body raises (failed load or save), the exception leaves the '
-                           f'generator at the yield and {gname} keeps the temporary value for the rest of the process')
-            ctx.require(ok, 'R17.1', f'{fn.name}.restore({gname})', w, why, construct=f'{fn.qname}::restore({gname})')
-    ctx.floor('R17.1', n, 1)
+    for charset in ('utf-16', 'shift_jis'):
+        for label, (stream, expect) in load_streams().items():
+            n += 1
+            holder = {}
+
+            def thunk():
+                ai.global_store.pop(KEY, None)
+                mf = _mf(ctx, ai, charset)
+                ai.call_function(load, [mf, AFile(stream=list(stream), name='in')], {})
+                return mf
+            outs = ai.explore(thunk)
+            _judge(ctx, ai, outs, f'load({label}, charset={charset})', load, mc, charset, initial, expect, mbytes)
+        for label, (factory, expect) in save_tracks(ctx, ai).items():
+            n += 1
+
+            def thunk_s():
+                ai.global_store.pop(KEY, None)
+                mf = _mf(ctx, ai, charset, AList([AList(factory(), 'MidiTrack')], 'list'))
+                ai.call_function(save, [mf, AFile(name='out')], {})
+                return mf
+            outs = ai.explore(thunk_s)
+            _judge(ctx, ai, outs, f'save({label}, charset={charset})', save, mc, charset, initial, expect, mbytes)
+    ctx.floor('R17.1', n, 28)
+    # nested overrides unwind level by level, also on an exception in the innermost block
+    for q in ai.inlined:
+        ctx.functions.add(q)
+
+
+def _judge(ctx, ai, outs, inst, fn, mc, charset, initial, expect, mbytes):
+    w = ctx.where(mc)
+    cons_leak = f'{mc.qname}::restore::{"after-return" if expect == "return" else "after-exception"}'
+    if len(outs) != 1:
+        ctx.fail('R17.1', inst, ctx.where(fn), f'the call does not have one outcome: {outs}', construct=f'{fn.qname}::outcomes')
+        return
+    oc = outs[0]
+    if oc.kind != expect:
+        ctx.fail('R17.1', inst, ctx.where(fn), f'expected the call to {expect}, got {oc}', construct=f'{fn.qname}::outcome-kind')
+        return
+    after = ai.global_store.get(KEY, initial)
+    ctx.require(after == 'latin1', 'R17.1', f'{inst}.restored', w,
+                f'after the call ({oc.kind}{" " + str(oc.exc) if oc.kind == "raise" else ""}) the process-wide charset is {after!r}, not latin1: '
+                'meta text encoded or decoded elsewhere now uses the wrong charset', construct=cons_leak)
+    seen = [e[2] for e in oc.log if e[0] == 'codec']
+    wrong = [c for c in seen if c != charset]
+    ctx.require(not wrong, 'R17.3', f'{inst}.in-force', ctx.where(fn),
+                f'{len(wrong)} of {len(seen)} text encodings/decodings during the call used {sorted(set(map(repr, wrong)))} instead of the file charset {charset!r}',
+                construct=f'{fn.qname}::charset-in-force')
+    if expect == 'return':
+        ctx.require(bool(seen), 'R17.3', f'{inst}.exercised', ctx.where(fn), 'no text was encoded/decoded: scenario does not exercise the codec',
+                    construct=f'{fn.qname}::exercised')
+    # an unrelated encode right after the call
+    msg_cls = ctx.p.cls(META, 'MetaMessage')
+    o2 = ai.explore(lambda: ai.call_function(mbytes, [wire.make_meta(ai, ctx, 'marker', {'text': StrSym('later')}, 0)], {}))
+    later = [e[2] for o_ in o2 for e in o_.log if e[0] == 'codec']
+    ctx.require(later == ['latin1'], 'R17.1', f'{inst}.later-encode', w, f'a meta message encoded after the call uses {later}', construct=cons_leak)
 
 
 def r17_2(ctx):
     m = ctx.p.module(META)
+    mc = ctx.p.func(META, 'meta_charset')
+    # functions reachable only from meta_charset
+    helpers = {mc.qname}
+    changed = True
+    while changed:
+        changed = False
+        for c in astq.calls(mc.node):
+            r = astq.resolve_callee(ctx.p, mc, c)
+            if isinstance(r, FuncInfo) and r.qname not in helpers and r.module.name == META:
+                callers = {f.qname for f in ctx.p.all_functions() for cc in astq.calls(f.node)
+                           if isinstance(astq.resolve_callee(ctx.p, f, cc), FuncInfo) and astq.resolve_callee(ctx.p, f, cc).qname == r.qname}
+                if callers <= helpers:
+                    helpers.add(r.qname)
+                    changed = True
     n = 0
     for fn in ctx.p.all_functions():
-        for g, st in global_stores(fn):
-            if g == '_charset' and fn.module.name == META:
-                n += 1
-                ctx.require(fn.name == 'meta_charset', 'R17.2', f'writer({fn.name})', ctx.where(fn, st),
-                            f'{fn.name} assigns the process-wide charset outside the scoped override', construct=f'{fn.qname}::writes(_charset)')
+        gl = set()
+        for nd in astq.walk_shallow(fn.node):
+            if isinstance(nd, ast.Global):
+                gl.update(nd.names)
         for t, st in astq.stores_in(fn.node):
+            if isinstance(t, ast.Name) and t.id == '_charset' and '_charset' in gl and fn.module.name == META:
+                n += 1
+                ctx.require(fn.qname in helpers, 'R17.2', f'writer({fn.name})', ctx.where(fn, st),
+                            f'{fn.name} assigns the process-wide charset outside the scoped override', construct=f'{fn.qname}::writes(_charset)')
             if isinstance(t, ast.Attribute) and t.attr == '_charset':
                 n += 1
                 ctx.fail('R17.2', f'writer({fn.name})', ctx.where(fn, st), f'{unparse(st)[:60]} rebinds the charset from outside',
@@ -108,127 +222,118 @@ def r17_2(ctx):
                     if isinstance(t, ast.Attribute) and t.attr == '_charset':
                         ctx.fail('R17.2', f'writer({mod.name})', f'{mod.relpath}:{st.lineno}', 'module level rebind of the charset',
                                  construct=f'{mod.relpath}::writes(_charset)')
-    ctx.floor('R17.2', n, 2)
+    ctx.floor('R17.2', n, 1)
     init = ctx.f.table(META, '_charset')
     ctx.require(init == 'latin1', 'R17.2', '_charset.initial', f'{m.relpath}:1 _charset', f'initial charset is {init!r}, documented default latin1',
                 construct=f'{m.relpath}::_charset')
     cls = ctx.p.cls(MF, 'MidiFile')
-    fi = cls.methods['__init__']
-    a = fi.node.args
-    dflt = None
-    for pa, d in zip(a.args[-len(a.defaults):], a.defaults):
-        if pa.arg == 'charset':
-            dflt = astq.const_value(d)
-    ctx.require(dflt == 'latin1', 'R17.2', 'MidiFile.charset.default', ctx.where(fi), f'default charset is {dflt!r}', construct=f'{fi.qname}::charset-default')
-    st = [s for t, s in astq.stores_in(fi.node) if unparse(t) == 'self.charset']
-    ctx.require(len(st) == 1 and unparse(st[0].value) == 'charset', 'R17.2', 'MidiFile.charset.stored', ctx.where(fi),
-                'the charset argument is not stored', construct=f'{fi.qname}::charset-stored')
+    ai = make_interp(ctx)
+    outs = ai.explore(lambda: ai.apply(ClassRef(cls), [], {}, None))
+    ok = len(outs) == 1 and outs[0].kind == 'return' and outs[0].value.attrs.get('charset') == 'latin1'
+    ctx.require(ok, 'R17.2', 'MidiFile().charset', f'{cls.module.relpath}:{cls.node.lineno} MidiFile', f'default charset: {outs}',
+                construct=f'{cls.qname}::charset-default')
+    outs = ai.explore(lambda: ai.apply(ClassRef(cls), [], {'charset': 'cp1252'}, None))
+    ok = len(outs) == 1 and outs[0].kind == 'return' and outs[0].value.attrs.get('charset') == 'cp1252'
+    ctx.require(ok, 'R17.2', 'MidiFile(charset=).stored', f'{cls.module.relpath}:{cls.node.lineno} MidiFile', f'{outs}', construct=f'{cls.qname}::charset-stored')
 
 
-def reaches_codec(ctx, fn: FuncInfo, seen=None, depth=0):
-    """Can fn reach encode_string/decode_string through resolved calls (incl. methods named bytes/encode/decode)?"""
-    seen = seen if seen is not None else {}
-    if fn.qname in seen:
-        return seen[fn.qname]
-    seen[fn.qname] = False
-    if fn.qname in (f'mido/midifiles/meta.py::encode_string', 'mido/midifiles/meta.py::decode_string'):
-        seen[fn.qname] = True
-        return True
-    res = False
-    for c in astq.calls(fn.node):
-        r = astq.resolve_callee(ctx.p, fn, c)
-        targets = []
-        if isinstance(r, FuncInfo):
-            targets.append(r)
-        elif hasattr(r, 'methods'):
-            init = r.methods.get('__init__')
-            if init:
-                targets.append(init)
-        elif isinstance(c.func, ast.Attribute) and c.func.attr in ('bytes', 'encode', 'decode', 'bin', 'hex') and fn.module.name.startswith('mido.midifiles'):
-            # dynamic dispatch on messages / specs: any method of that name in meta.py
-            mm = ctx.p.module(META)
-            for k in mm.classes.values():
-                if c.func.attr in k.methods:
-                    targets.append(k.methods[c.func.attr])
-        for t in targets:
-            if depth < 8 and reaches_codec(ctx, t, seen, depth + 1):
-                res = True
-    seen[fn.qname] = res
-    return res
+class TextProbe:
+    """A text whose .encode(codec, *more) is observed."""
+    py_type = 'str'
 
+    def __init__(self):
+        self.calls = []
 
-def r17_3(ctx):
-    cls = ctx.p.cls(MF, 'MidiFile')
-    seen = {}
-    n = 0
-    for name, fn in cls.methods.items():
-        ctx.fn(fn)
-        withs = [x for x in astq.walk_shallow(fn.node) if isinstance(x, ast.With) and any(
-            isinstance(i.context_expr, ast.Call) and astq.callee_qname(ctx.p, fn, i.context_expr) == 'mido/midifiles/meta.py::meta_charset'
-            for i in x.items)]
-        for wnode in withs:
-            for i in wnode.items:
-                if isinstance(i.context_expr, ast.Call) and astq.callee_qname(ctx.p, fn, i.context_expr) == 'mido/midifiles/meta.py::meta_charset':
-                    arg = i.context_expr.args[0] if i.context_expr.args else None
-                    ctx.require(arg is not None and unparse(arg) == 'self.charset', 'R17.3', f'{name}.with-arg', ctx.where(fn, wnode),
-                                'meta_charset is not entered with self.charset', construct=f'{fn.qname}::with-arg')
-        for c in astq.calls(fn.node):
-            r = astq.resolve_callee(ctx.p, fn, c)
-            if isinstance(r, FuncInfo) and r.cls is None and reaches_codec(ctx, r, seen):
-                n += 1
-                ctx.call_sites += 1
-                inside = any(astq.contains_node(wn, c) for wn in withs)
-                ctx.require(inside, 'R17.3', f'{name}->{r.name}@{c.lineno}', ctx.where(fn, c),
-                            f'{r.name}() encodes/decodes meta text but is called outside `with meta_charset(self.charset)`: the file charset is not applied',
-                            construct=f'{fn.qname}::{r.name}::outside-charset-scope')
-    ctx.floor('R17.3', n, 2)
+    def absint_hasattr(self, name):
+        return name == 'encode'
+
+    def absint_getattr(self, interp, name, node):
+        return ('probe-method', self, name)
 
 
 def r17_4(ctx):
-    m = ctx.p.module(META)
-    for fname, meth in (('encode_string', 'encode'), ('decode_string', 'decode')):
-        fn = ctx.fn(ctx.p.func(META, fname))
+    """The helpers themselves, un-summarised: exactly text.encode(<current charset>) / bytearray(data).decode(<current charset>)."""
+    from ..absint import _NO
+    ai = smf.make_interp(ctx)
+    for q in ('mido/midifiles/meta.py::encode_string', 'mido/midifiles/meta.py::decode_string'):
+        ai.summaries.pop(q, None)
+    enc = ctx.fn(ctx.p.func(META, 'encode_string'))
+    dec = ctx.fn(ctx.p.func(META, 'decode_string'))
+    seen = []
+
+    def hook(interp, base, name, args, kwargs, node):
+        if isinstance(base, TextProbe) and name == 'encode':
+            seen.append(('encode', list(args), dict(kwargs)))
+            return AList([SeqVar('encoded', 255)], 'bytes')
+        if isinstance(base, AList) and base.kind in ('bytearray', 'bytes') and name == 'decode':
+            seen.append(('decode', list(args), dict(kwargs), list(base.items)))
+            return StrSym('decoded')
+        return _NO
+    ai.method_hooks.insert(0, hook)
+    for fn, kind in ((enc, 'encode'), (dec, 'decode')):
         w = ctx.where(fn)
-        a = fn.node.args
-        dflt_uses = any('_charset' in unparse(d) for d in list(a.defaults) + [k for k in a.kw_defaults if k is not None])
-        ctx.require(not dflt_uses, 'R17.4', f'{fname}.late-binding', w, 'the charset is captured as a default argument at import time',
-                    construct=f'{fn.qname}::default-arg')
-        calls = [c for c in astq.calls(fn.node) if isinstance(c.func, ast.Attribute) and c.func.attr == meth]
-        ok = len(calls) == 1 and len(calls[0].args) == 1 and isinstance(calls[0].args[0], ast.Name) and calls[0].args[0].id == '_charset' \
-            and not calls[0].keywords
-        ctx.require(ok, 'R17.4', f'{fname}.codec', w, f'{fname} does not {meth} with the current _charset (strictly, no error handler)',
-                    construct=f'{fn.qname}::codec')
-        if ok:
-            recv = calls[0].func.value
-            if fname == 'encode_string':
-                good = isinstance(recv, ast.Name) and recv.id == fn.params()[0]
-            else:
-                good = unparse(recv) in (f'bytearray({fn.params()[0]})', f'bytes({fn.params()[0]})')
-            ctx.require(good, 'R17.4', f'{fname}.operand', w, f'{fname} applies the codec to {unparse(recv)}', construct=f'{fn.qname}::operand')
-        # _charset resolves to the module global (not shadowed)
-        local = {t.id for t, _ in astq.stores_in(fn.node) if isinstance(t, ast.Name)} | set(fn.params())
-        ctx.require('_charset' not in local, 'R17.4', f'{fname}.global', w, '_charset is a local name here', construct=f'{fn.qname}::shadow')
-    reg = wire.meta_registry(ctx)
-    n = 0
-    for t in reference.TEXT_META:
-        c = reg.get(t)
-        if c is None:
-            continue
-        attr = reference.META_SPECS[t][1][0]
-        for meth, helper in (('encode', 'encode_string'), ('decode', 'decode_string')):
-            o, fn = ctx.p.lookup_method(c, meth)
-            if fn is None:
-                ctx.fail('R17.4', f'{t}.{meth}', f'{m.relpath}:{c.node.lineno} {c.name}', f'no {meth}', construct=f'{c.qname}::{meth}')
-                continue
-            ctx.fn(fn)
-            n += 1
-            cs = [x for x in astq.calls(fn.node) if astq.callee_qname(ctx.p, fn, x) == f'mido/midifiles/meta.py::{helper}']
-            lit = [x for x in astq.calls(fn.node) if isinstance(x.func, ast.Attribute) and x.func.attr in ('encode', 'decode')]
-            uses_attr = f'message.{attr}' in unparse(fn.node)
-            ctx.require(len(cs) == 1 and not lit and uses_attr, 'R17.4', f'{t}.{meth}', ctx.where(fn),
-                        f'{c.name}.{meth} does not go through {helper}() for attribute {attr!r} (a literal codec would ignore the file charset)',
-                        construct=f'{c.qname}::{meth}::helper')
-    ctx.floor('R17.4-text-specs', n, 16)
+        for cs in ('cs-one', 'cs-two'):          # late binding: the global is changed between the calls
+            seen.clear()
+            payload = AList([SeqVar('payload', 255)], 'list')
+
+            def thunk():
+                ai.global_store[KEY] = cs
+                arg = TextProbe() if kind == 'encode' else payload
+                return ai.call_function(fn, [arg], {})
+            outs = ai.explore(thunk)
+            ai.global_store.pop(KEY, None)
+            inst = f'{fn.name}(charset in force = {cs})'
+            ok = len(outs) == 1 and outs[0].kind == 'return' and len(seen) == 1 and seen[0][0] == kind
+            why = f'{fn.name} does not make exactly one .{kind}() call: {outs} / {seen}'
+            if ok:
+                args, kwargs = seen[0][1], seen[0][2]
+                ok = args == [cs] and not kwargs
+                why = (f'{fn.name} calls .{kind}({", ".join(map(repr, args))}{", " if kwargs else ""}{kwargs if kwargs else ""}) while the charset in force is {cs!r} '
+                       '(must be exactly the current charset, read at call time, without an error handler)')
+            ctx.require(ok, 'R17.4', inst, w, why, construct=f'{fn.qname}::codec')
+            if ok and kind == 'decode':
+                items = seen[0][3]
+                ctx.require(len(items) == 1 and items[0] is payload.items[0], 'R17.4', f'{inst}.operand', w,
+                            f'the bytes decoded are {items!r}, not exactly the payload', construct=f'{fn.qname}::operand')
+            if ok and kind == 'encode':
+                v = outs[0].value
+                ctx.require(isinstance(v, AList) and len(v.items) == 1 and isinstance(v.items[0], SeqVar) and v.items[0].name == 'encoded',
+                            'R17.4', f'{inst}.result', w, f'the result is {v!r}, not the list of encoded bytes', construct=f'{fn.qname}::result')
+    for q in ai.inlined:
+        ctx.functions.add(q)
 
 
-RULES = [('R17.1', r17_1), ('R17.2', r17_2), ('R17.3', r17_3), ('R17.4', r17_4)]
+def r17_nested(ctx):
+    """Nested overrides unwind level by level."""
+    ai = make_interp(ctx)
+    mc = ctx.fn(ctx.p.func(META, 'meta_charset'))
+    src = ("def probe(fail):\n"
+           "    with meta_charset('outer'):\n"
+           "        a = _charset\n"
+           "        try:\n"
+           "            with meta_charset('inner'):\n"
+           "                b = _charset\n"
+           "                if fail:\n"
+           "                    raise KeyError('x')\n"
+           "        except KeyError:\n"
+           "            pass\n"
+           "        c = _charset\n"
+           "    return a, b, c, _charset\n")
+    tree = ast.parse(src)
+    fn_node = tree.body[0]
+    m = ctx.p.module(META)
+    from ..model import FuncInfo as FI, add_parents
+    add_parents(tree)
+    probe = FI('probe', m, fn_node)
+    for fail in (False, True):
+        def thunk():
+            ai.global_store.pop(KEY, None)
+            return ai.call_function(probe, [fail], {})
+        outs = ai.explore(thunk)
+        ok = len(outs) == 1 and outs[0].kind == 'return' and (tuple(outs[0].value.items) if isinstance(outs[0].value, AList) else outs[0].value) == ('outer', 'inner', 'outer', 'latin1')
+        ctx.require(ok, 'R17.1', f'nested(meta_charset, inner block {"raises" if fail else "completes"})', ctx.where(mc),
+                    f'charset seen outer/inner/after-inner/after-outer: {outs}; expected outer, inner, outer, latin1',
+                    construct=f'{mc.qname}::nested::{"exception" if fail else "normal"}')
+
+
+RULES = [('R17-scoping', r17_scoping), ('R17-nested', r17_nested), ('R17.2', r17_2), ('R17.4', r17_4)]
